@@ -135,20 +135,29 @@ def edge_match(a, b):
     return a['c'] == b['c']
 
 
-def run_ismags(G, S, gkeys, skeys, ginv, sinv):
-    """Run every API mode; return dict mode -> list of frozenset((g, s)) in yield order (int labels)."""
+def run_ismags(G, S, gkeys, skeys, ginv, sinv, calls=None, shared=False, cache=None):
+    """Run every API mode; return dict mode -> list of frozenset((g, s)) in yield order (int labels).
+
+    ``calls`` is the order of the four API calls; with ``shared`` they are all made on ONE matcher object (the history
+    of calls on an instance is part of the schedule: the object caches partitions, colours and candidates), otherwise
+    every call gets a fresh object.  ``cache`` is the symmetry cache handed to the constructor (as repair_graph does)."""
     from vermouth.ismags import ISMAGS
     out = {}
     graph = build_nx(G, gkeys)
     sub = build_nx(S, skeys)
+    calls = calls or ['iso:0', 'lcs:0', 'iso:1', 'lcs:1']
 
     def conv(mapping):
         return frozenset((ginv[g], sinv[s]) for g, s in mapping.items())
-    for sym in (False, True):
-        ism = ISMAGS(graph, sub, node_match=node_match, edge_match=edge_match)
-        out['iso:%d' % sym] = [conv(m) for m in ism.find_isomorphisms(symmetry=sym)]
-        ism = ISMAGS(graph, sub, node_match=node_match, edge_match=edge_match)
-        out['lcs:%d' % sym] = [conv(m) for m in ism.largest_common_subgraph(symmetry=sym)]
+    instance = ISMAGS(graph, sub, node_match=node_match, edge_match=edge_match, cache=cache) if shared else None
+    for call in calls:
+        kind, sym = call.split(':')
+        sym = bool(int(sym))
+        ism = instance if shared else ISMAGS(graph, sub, node_match=node_match, edge_match=edge_match, cache=cache)
+        if kind == 'iso':
+            out[call] = [conv(m) for m in ism.find_isomorphisms(symmetry=sym)]
+        else:
+            out[call] = [conv(m) for m in ism.largest_common_subgraph(symmetry=sym)]
     return out
 
 
@@ -263,7 +272,7 @@ def gen_pair(rng, tier):
     big = tier == 'thorough'
     kind = rng.random()
     maxg = 9 if big else 8
-    maxs = 7 if big else 6
+    maxs = 7
     if kind < 0.45:
         n = rng.randint(1, maxg)
         G = {'n': n, 'edges': gnp(rng, n, rng.choice([0.2, 0.4, 0.6, 0.9]))}
@@ -319,23 +328,26 @@ class C06Check(core.Check):
                    'node and edge equality are colour equality (a transitive relation, as the statement requires)']
     rule = ('scenario = (graph <= 9 nodes, pattern <= 7 nodes: G(n,p), patterns cut out of the graph, paths, cycles, stars, complete, '
             'bipartite, trees, the two-hub shape quoted in ismags.py, disconnected graphs; 1-3 node colours, 1-2 edge colours) x K '
-            'schedules (hash assignment wide / narrow-colliding / rank, node numbering permuted). Every schedule is compared with '
+            'schedules (hash assignment wide / narrow-colliding / rank, node numbering permuted, order of the four API calls, calls on one shared matcher object or on fresh ones, shared symmetry cache). Every schedule is compared with '
             'brute-force enumeration; the result sets of all schedules of a pair must coincide. distinct = scenario digest; '
             'non-trivial = pattern with >= 2 nodes and at least one isomorphism or common subgraph of size >= 2')
     probes_expected = ['nontrivial_symmetry', 'lcs_smaller_than_pattern', 'order_differs_between_schedules', 'string_mode_pairs',
-                       'narrow_hash_collisions', 'no_isomorphism']
+                       'narrow_hash_collisions', 'no_isomorphism', 'shared_instance_call_history', 'symmetry_cache_shared']
 
     def budgets(self, tier):
         if tier == 'thorough':
             return {'runs': 60000, 'determinism': 100, 'wall': 3300}
-        return {'runs': 2500, 'determinism': 30, 'wall': 600}
+        return {'runs': 1500, 'determinism': 20, 'wall': 600}
 
     def generate(self, rng, run_index, tier):
         G, S = gen_pair(rng, tier)
         k = 12 if tier == 'thorough' else 6
         schedules = []
         for i in range(k):
-            schedules.append({'hash': rng.choice(['wide', 'wide', 'narrow', 'rank', 'tiny']), 'seed': rng.randrange(1 << 30)})
+            calls = ['iso:0', 'lcs:0', 'iso:1', 'lcs:1']
+            rng.shuffle(calls)
+            schedules.append({'hash': rng.choice(['wide', 'wide', 'narrow', 'rank', 'tiny']), 'seed': rng.randrange(1 << 30),
+                              'calls': calls, 'shared': rng.random() < 0.5, 'cache': rng.random() < 0.4})
         sc = {'G': encode_graph(G), 'S': encode_graph(S), 'schedules': schedules}
         if rng.random() < (0.04 if tier != 'thorough' else 0.02):
             sc['string_seeds'] = [rng.randrange(1 << 32) for _ in range(2)]
@@ -393,7 +405,13 @@ class C06Check(core.Check):
             sinv = {k: i for i, k in enumerate(skeys)}
             stats.execs += 1
             try:
-                got = run_ismags(G, S, gkeys, skeys, ginv, sinv)
+                # the symmetry cache is keyed by hash(): only meaningful with realistic (collision-free) key hashes
+                cache = {} if (sch.get('cache') and sch['hash'] in ('wide', 'rank')) else None
+                if sch.get('shared'):
+                    stats.probes['shared_instance_call_history'] += 1
+                if cache is not None:
+                    stats.probes['symmetry_cache_shared'] += 1
+                got = run_ismags(G, S, gkeys, skeys, ginv, sinv, calls=sch.get('calls'), shared=bool(sch.get('shared')), cache=cache)
             except Exception as err:
                 import traceback
                 return result(VIOLATION, invariant='matcher-raised', signature='matcher-raised:%s' % type(err).__name__,
